@@ -12,9 +12,9 @@
 (*                     expected counterexample = the name-capture defect   *)
 (*                     (assign y = ~a & b; assign not_a = c | a).          *)
 (***************************************************************************)
-EXTENDS CGExprReader, CGLogic, IOUtils
+EXTENDS CGExprReader, CGLogic, CGFamilies, IOUtils
 
-VARIABLES E, N, order
+VARIABLES E, N, order, c0, go
 Atoms == {<<"$a">>, <<"$b">>, <<"1">>}
 Un == Atoms \cup {<<"$a", "~">>, <<"$b", "~">>}
 Ops == {"&", "|", "^", "~^"}
@@ -24,8 +24,8 @@ Deep == {b \o <<"$c">> \o <<op>> : b \in Bin, op \in {"&", "^"}} \cup {<<"$c">> 
 MuxEx == {<<"$a", "$b", "$c", "?:">>, <<"$a", "~", "$b", "$a", "?:">>, <<"$c", "$a", "$b", "&", "1", "?:">>}
 Exprs == Un \cup Bin \cup Deep \cup MuxEx
 Names == {"w", "not_a", "and_a_b", "xor_a_b", "not_a_0", "a_dup", "tie_1", "mux_o_a_b_c", "and_not_a_b"}
-Init == E \in Exprs /\ N \in Names /\ order \in {<<1, 2>>, <<2, 1>>}
-Next == UNCHANGED <<E, N, order>>
+Init == E \in Exprs /\ N \in Names /\ order \in {<<1, 2>>, <<2, 1>>} /\ c0 = <<>> /\ go = TRUE
+Next == UNCHANGED <<E, N, order, c0, go>>
 P == [name |-> "top", ports |-> <<"a", "b", "c", "y", N>>, inputs |-> <<"a", "b", "c">>, outputs |-> <<"y", N>>,
       items |-> << [k |-> "assign", lhs |-> "y", rhs |-> E], [k |-> "assign", lhs |-> N, rhs |-> <<"$c", "$a", "|">>] >>,
       bbtypes |-> <<>>]
@@ -36,4 +36,14 @@ Result == [Indexed(ExprReaderModel(P, order, R)) EXCEPT !.name = "top"]
 ReaderDenotes == Judge_parse([p |-> P, r |-> Result, exc |-> "", expect_reject |-> FALSE]) = {}
 \* the declared nets are nodes of the result and no other node carries a text identifier
 NoCapture == {"a", "b", "c", "y", N} \subseteq NameSet(Result)
+
+(* ---- behavioural write -> read inside the model (C03, `behavioral=True`): every circuit of G1 (constants, x, one-operand
+   gates of every type) and G2; the relation of C03 holds between c and what the reader machine builds from the
+   behavioural program of c ---- *)
+InitB == go = FALSE /\ c0 \in G1(0) \cup G2ok(0) /\ E = <<>> /\ N = "" /\ order = <<>>
+NextB == go = FALSE /\ go' = TRUE /\ UNCHANGED <<c0, E, N, order>>
+PB == WriterProgramB(c0)
+ResultB == [Indexed(ExprReaderModel(PB, [q \in 1..Len(PB.items) |-> q], ProgramIdents(PB) \cup Keywords)) EXCEPT !.name = c0.name]
+BehaviouralRoundTrip == go => Judge_v_roundtrip([c |-> c0, c2 |-> ResultB, behavioral |-> TRUE, exc |-> ""]) = {}
+BehaviouralWriterDenotes == go /\ NFree(c0) <= MaxBits => ParseClauses(PB, c0) = {}
 =============================================================================
